@@ -958,6 +958,56 @@ def pdfRun (overwrite : Bool) (sch : Sched) (fs : FS) (xs : List Item) : PdfRun 
 
 def PdfRun.out (r : PdfRun) : List Emit := r.blocks.flatten ++ r.tail
 
+/-! ## `LaTeXToPDF`: the timing-free description (reference notions of the theorems)
+
+What is produced for the selected values is, as a multiset, `pdfSpec`: decide for every selected value
+against the *initial* file system; a skipped one contributes its `(pdf, context)` at once, a launched one
+the result of its process iff the return code is 0 (`Lemmas/C10.lean`: `pdf_loop_spec`). -/
+
+/-- the pdf name of a tex name -/
+def pdfName (t : String) : String := pyReplace t ".tex" ".pdf"
+
+/-- the tex file name a value carries as data -/
+def texOf (v : Item) : Option String :=
+  match v.data with
+  | .str t => some t
+  | _ => none
+
+/-- what the processes of a pool will yield once they have ended: `(key, context)` for return code 0 -/
+def pending (rc : Nat → Int) (pool : List Proc) : List Item :=
+  pool.filterMap (fun p => if rc p.pid != 0 then none else some (procResult p))
+
+/-- the values made by the element among what was yielded -/
+def prodsOf (es : List Emit) : List Item :=
+  es.filterMap (fun e => match e with
+    | .prod v => some v
+    | .pass _ => none)
+
+/-- decide every selected value against one file system `fs`; `n` = number of processes launched so far -/
+def pdfSpec (ow : Bool) (rc : Nat → Int) (fs : FS) : Nat → List Item → List Item
+  | _, [] => []
+  | n, a :: as =>
+    match pdfDecide ow fs a with
+    | .err _ => []
+    | .skip y => y :: pdfSpec ow rc fs n as
+    | .launch key tex ctx =>
+      (if rc n != 0 then [] else [procResult ⟨key, n, tex, ctx, a.tok⟩]) ++ pdfSpec ow rc fs (n + 1) as
+
+/-- the tex names of the selected values of a flow, and the pdf names made from them -/
+def selTex (xs : List Item) : List String := (xs.filter pdfSel).filterMap texOf
+def selKeys (xs : List Item) : List String := (selTex xs).map pdfName
+
+/-- the consumed values among what was yielded -/
+def passedOf (es : List Emit) : List Item :=
+  es.filterMap (fun e => match e with
+    | .pass v => some v
+    | .prod _ => none)
+
+/-- executable form of the no-collision hypothesis `KeysOK` (`Lemmas/C10.lean`): the pdf names in the pool
+and of the selected values are pairwise different, and no tex name is one of them -/
+def keysOKb (poolKeys : List String) (xs : List Item) : Bool :=
+  decide (poolKeys ++ selKeys xs).Nodup && (selTex xs).all (fun t => !(poolKeys ++ selKeys xs).contains t)
+
 /-! ## Pipelines: `Sequence(E1, E2, …)` of per-value loops
 
 Generators are demand-driven: `E2` consumes every value `E1` yields while `E1` processes one input value,
